@@ -27,19 +27,23 @@ from instr import diskcache
 ID = 'C15'
 COQ_PROP = 'C15'
 LEVEL = 'proof'
-TRANSLATE = ['recipes']
+TRANSLATE = ['recipes', 'format']     # format: Cache/FanoutCache __getstate__ / __setstate__ / __init__ parameters (recipe objects and handles that travel by pickle)
 TRUSTED = [
     'atomic layer: one Cache operation / one `with cache.transact(retry=True)` block on the recipe key is one atomic step of model/Recipes.v (this is what C05/C06 state; assumed here, exercised by the schedule-driven correspondence)',
     'translator templates of tools/emit_recipes.py for Lock/RLock/BoundedSemaphore/barrier (AST equality outside the holes)',
     'the mapping from scheduler-log events to atomic steps (COMMIT/ROLLBACK of the key shard, lock-free SELECT, work sleep) in harness/props/c15.py',
 ]
 ASSUMPTIONS = [
-    'the lock key is touched by nobody else, has no ttl (expire=None) and is not evicted (eviction_policy none)',
+    'the lock key is touched by nobody else, has no ttl (the recipes and barrier are used with their DEFAULT expire, which the hold sequences check '
+    'to mean "never": a holder stays inside while the virtual clock advances by up to 400 days) and is not evicted (eviction_policy none)',
     'each cache operation and each transact block is atomic and isolated (properties C05/C06)',
     'Lock and BoundedSemaphore: contenders release only what they hold (Lock.release deletes the key whoever holds it; the property text requires refusal only for RLock) -- RLock theorems need no such discipline.  A release by a contender holding nothing is still generated: with every permit free it must be refused (BoundedSemaphore) or be a no-op (Lock) and must leave the stored entry as it was, and the exclusion bound is then checked on what follows; only runs in which such a release was ACCEPTED (another contender held a permit) are left to the correspondence',
     'owner identity pid-tid is distinct for distinct contenders',
     'no liveness under contention is claimed (needs a fair scheduler): only "a free resource is taken by the next attempt" and "a release frees it"',
-    'processes: exercised free-running in the thorough tier only (monitor only); the deterministic scheduler drives threads',
+    'processes: forked holders (object built before the fork) and forked contenders that unpickle the recipe object (Cache and FanoutCache with 1-13 shards, '
+    'both directions) on every run, monitor only; a free-running soak in the thorough tier; the deterministic scheduler drives threads',
+    'hold sequences are sequential (one operation at a time, an acquire that would wait is cut at its first sleep): they add the dimensions time and '
+    'origin of the handle (same object / unpickled recipe object / recipe built on an unpickled cache handle), not interleavings',
 ]
 
 WORK = 0.25          # duration of the sleep that stands for work inside a critical section
@@ -97,12 +101,14 @@ def shard_info(c, key):
     return 1, 0
 
 
-def make_recipe(kind, cache, value):
+def make_recipe(kind, cache, value, key=KEY):
     if kind == 'lock':
-        return diskcache.Lock(cache, KEY)
+        return diskcache.Lock(cache, key)
     if kind == 'rlock':
-        return diskcache.RLock(cache, KEY)
-    return diskcache.BoundedSemaphore(cache, KEY, value=value)
+        return diskcache.RLock(cache, key)
+    if value == 1:
+        return diskcache.BoundedSemaphore(cache, key)      # every argument at its default
+    return diskcache.BoundedSemaphore(cache, key, value=value)
 
 
 def factory(kind, value):
@@ -841,6 +847,407 @@ def refusal_sequences(ctx, res, ncases):
     res.extra['refusal_sequence_totals'] = tot
 
 
+# ---------------------------------------------------------------------------
+# hold sequences: time passes while the resource is held; holders whose recipe object or cache handle arrived by pickle
+# (sequential, exact reference, virtual clock)
+
+
+HOLD_TIMES = [0.5, 59.0, 61.0, 600.0, 3600.0, 86400.0, 30 * 86400.0, 400 * 86400.0]
+HOLD_KEYS = ['K', 'lock-0', 'lock-1', 'lock-2', 'L', 'sem/a', 'rlock:b', 7, ('k', 1)]
+HOLD_SHARDS = [1, 2, 3, 4, 5, 8, 13]
+VIAS = ['same', 'same', 'pickled-recipe', 'pickled-cache']
+
+
+def gen_hold_case(rng, n):
+    """Holders 0..m-1 (one thread each).  Operations: [j, 'A'] acquire / [j, 'R'] release through the recipe object built
+    with its default arguments, [j, 'BI'] enter a barrier-wrapped function (barrier with its default arguments) and stay
+    inside, [j, 'BO'] leave it, ['T', seconds] the clock advances.  via[j]: how holder j got its recipe object / cache."""
+    kind = ['sem', 'rlock', 'lock'][n % 3]
+    value = [1, 2, 3][(n // 3) % 3] if kind == 'sem' else 1
+    variant = ['cache', 'fanout', 'fanout'][(n // 9) % 3]
+    shards = rng.choice(HOLD_SHARDS) if variant == 'fanout' else 1
+    named = rng.random() < 0.7          # False: barrier derives the key from the function name; only barrier calls then
+    m = rng.choice([2, 3]) if kind != 'sem' else value + 1
+    vias = ['same'] + [rng.choice(VIAS) for _ in range(m - 1)]
+    rng.shuffle(vias)
+    ref = RefState(kind, value, m)
+    parked = set()
+    direct = [0] * m        # acquisitions made by 'A' (released by 'R'), per holder
+    ops = []
+
+    def attempt(j):
+        op = 'A' if (named and rng.random() < 0.5) else 'BI'
+        ops.append([j, op])
+        if ref.can_acquire(j):
+            ref.h[j] += 1
+            if op == 'BI':
+                parked.add(j)
+            else:
+                direct[j] += 1
+    for _ in range(rng.randrange(3, 9)):
+        r = rng.random()
+        free = [j for j in range(m) if j not in parked]
+        if r < 0.35 and ref.total() > 0:
+            ops.append(['T', rng.choice(HOLD_TIMES)])
+        elif r < 0.5 and parked:
+            j = rng.choice(sorted(parked))
+            ops.append([j, 'BO'])
+            parked.discard(j)
+            ref.h[j] -= 1
+        elif r < 0.6 and any(direct[j] for j in free):
+            j = rng.choice([j for j in free if direct[j]])
+            ops.append([j, 'R'])
+            direct[j] -= 1
+            ref.h[j] -= 1
+        elif free:
+            attempt(rng.choice(free))
+    # a long time passes while the holders stay; then everybody who is not parked inside tries to get in
+    if ref.total() == 0:
+        attempt(rng.randrange(m))
+    ops.append(['T', rng.choice(HOLD_TIMES[2:])])
+    for j in range(m):
+        if j not in parked:
+            attempt(j)
+    # everybody leaves; then the resource must be free for the next attempt
+    for j in sorted(parked):
+        ops.append([j, 'BO'])
+        ref.h[j] -= 1
+    parked.clear()
+    for j in range(m):
+        while direct[j]:
+            ops.append([j, 'R'])
+            direct[j] -= 1
+            ref.h[j] -= 1
+    ops.append([rng.randrange(m), 'A' if named else 'BI'])
+    return {'check': 'hold', 'kind': kind, 'value': value, 'variant': variant, 'shards': shards, 'holders': m, 'named': named,
+            'key': rng.choice(HOLD_KEYS), 'via': vias, 'ops': ops}
+
+
+def case_key(case):
+    k = case.get('key', KEY)
+    return tuple(k) if isinstance(k, list) else k      # (JSON turns the tuple key into a list)
+
+
+def default_factory(kind, value):
+    if kind == 'sem' and value == 1:
+        return diskcache.BoundedSemaphore
+    return factory(kind, value)
+
+
+def run_hold_case(case, d):
+    """-> (problems [(sig, text, op index)], info).  Decided from the outcome of each call against RefState: an acquire /
+    barrier entry succeeds exactly when the property leaves room, whatever time has passed since the holders got in and
+    however the contender's object reached it; a holder's release (leaving the barrier) is accepted."""
+    import pickle
+    import time as real_time
+    from concurrent.futures import ThreadPoolExecutor
+    kind, value, m = case['kind'], case.get('value', 1), case['holders']
+    key = case_key(case)
+    clock = instr.Clock(1000.0)
+
+    def on_sleep(dur):
+        raise WouldBlock()
+    clock.on_sleep = on_sleep
+    problems, info = [], {'acquired': 0, 'blocked': 0, 'longest_hold': 0.0, 'pickled': 0}
+    ref = RefState(kind, value, m)
+    since = [None] * m          # clock value when holder j got in
+    handles = []
+    with instr.Installed(clock):
+        if case['variant'] == 'fanout':
+            cache = diskcache.FanoutCache(d, shards=case.get('shards', 1), eviction_policy='none')
+        else:
+            cache = diskcache.Cache(d, eviction_policy='none')
+        handles.append(cache)
+        pools = [ThreadPoolExecutor(max_workers=1) for _ in range(m)]
+        events = [{'entered': threading.Event(), 'leave': threading.Event()} for _ in range(m)]
+        parked = {}
+
+        def travelled():
+            c = pickle.loads(pickle.dumps(cache))
+            handles.append(c)
+            return c
+
+        def build(j):
+            via = case['via'][j]
+            cj = cache if via == 'same' else travelled()
+            if via == 'pickled-recipe':
+                lk = pickle.loads(pickle.dumps(make_recipe(kind, cache, value, key)))
+            else:
+                lk = make_recipe(kind, cj, value, key)
+            ev = events[j]
+
+            def body():
+                ev['entered'].set()
+                if not ev['leave'].wait(60):
+                    raise RuntimeError('left inside the barrier-wrapped function')
+                return 'ran'
+            kw = {'name': key} if case['named'] else {}
+            return lk, diskcache.barrier(cj, default_factory(kind, value), **kw)(body)
+        try:
+            built = [pools[j].submit(build, j).result() for j in range(m)]
+            info['pickled'] = sum(1 for v in case['via'] if v != 'same')
+
+            def how(j):
+                return 'holder %d (%s)' % (j, case['via'][j])
+            for i, step in enumerate(case['ops']):
+                if step[0] == 'T':
+                    clock.advance(step[1])
+                    continue
+                j, op = step
+                lk, wrapped = built[j]
+                held_for = max([clock.now - t for t in since if t is not None] or [0.0])
+                if op in ('A', 'BI'):
+                    expect = ref.can_acquire(j)
+                    try:
+                        if op == 'A':
+                            pools[j].submit(lk.acquire).result()
+                            got = True
+                        else:
+                            events[j]['entered'].clear()
+                            events[j]['leave'].clear()
+                            fut = pools[j].submit(wrapped)
+                            while not events[j]['entered'].is_set() and not fut.done():
+                                real_time.sleep(0.0002)
+                            got = events[j]['entered'].is_set()
+                            if got:
+                                parked[j] = fut
+                            else:
+                                fut.result()
+                                raise RuntimeError('barrier-wrapped function returned without running')
+                    except WouldBlock:
+                        got = False
+                    what = 'acquire' if op == 'A' else 'call of the barrier-wrapped function'
+                    if got and not expect:
+                        info['longest_hold'] = max(info['longest_hold'], held_for)
+                        holders = ref.total() + 1 if kind == 'sem' else 2
+                        problems.append(('hold-sequence:exclusion', '%s by %s got in: %d simultaneous holders of a %s with bound %d; the others have been inside for %g s '
+                                         '(holders by origin %r)' % (what, how(j), holders, kind, ref.bound, held_for, case['via']), i))
+                        break
+                    if expect and not got:
+                        problems.append(('hold-sequence:free-acquire-blocked', '%s by %s found the %s taken although %d of %d are held' % (
+                            what, how(j), kind, ref.total(), ref.bound), i))
+                        break
+                    if got:
+                        ref.h[j] += 1
+                        since[j] = clock.now if since[j] is None else since[j]
+                        info['acquired'] += 1
+                    else:
+                        info['blocked'] += 1
+                        info['longest_hold'] = max(info['longest_hold'], held_for)
+                else:
+                    try:
+                        if op == 'R':
+                            pools[j].submit(lk.release).result()
+                        else:
+                            events[j]['leave'].set()
+                            parked.pop(j).result(60)
+                    except AssertionError as e:
+                        problems.append(('hold-sequence:release-refused', '%s of the %s by %s, who has held it for %g s, was refused: %s' % (
+                            'release' if op == 'R' else 'the release on leaving the barrier-wrapped function', kind, how(j), clock.now - (since[j] or clock.now), e), i))
+                        break
+                    ref.h[j] -= 1
+                    if ref.h[j] == 0:
+                        since[j] = None
+        except WouldBlock:
+            raise
+        except Exception as e:      # noqa: BLE001 -- any other failure of a contender is reported, not swallowed
+            problems.append(('hold-sequence:error', 'a contender raised %r' % (e,), len(case['ops'])))
+        finally:
+            for ev in events:
+                ev['leave'].set()
+            for f in parked.values():
+                try:
+                    f.result(60)
+                except BaseException:      # noqa: BLE001
+                    pass
+            for p_ in pools:
+                p_.shutdown(wait=True)
+            for c in handles:
+                c.close()
+    return problems, info
+
+
+def hold_sequences(ctx, res, ncases):
+    tot = {'acquired': 0, 'blocked': 0, 'pickled': 0}
+    longest = 0.0
+    seen = {}
+    for n in range(ncases):
+        case = gen_hold_case(ctx.rng, n)
+        d = ctx.scratch('c15h')
+        try:
+            problems, info = run_hold_case(case, d)
+        finally:
+            shutil.rmtree(d, ignore_errors=True)
+        for k in tot:
+            tot[k] += info[k]
+        longest = max(longest, info['longest_hold'])
+        res.count(case, nontrivial=info['blocked'] > 0)
+        for sig, text, i in problems:
+            seen[sig] = seen.get(sig, 0) + 1
+            if seen[sig] <= 4:
+                res.violations.append(fw.Violation(sig, text + ' (operation %d of %r on %s%s, %s)' % (
+                    i, case['ops'][:i + 1], case['variant'], '[%d shards]' % case['shards'] if case['variant'] == 'fanout' else '',
+                    'key %r' % (case_key(case),) if case['named'] else 'barrier key derived from the function'), dict(case, failing_op=i)))
+    res.extra['hold_sequences'] = ncases
+    res.extra['hold_sequence_totals'] = dict(tot, longest_hold_seconds_with_a_blocked_contender=longest)
+
+
+# ---------------------------------------------------------------------------
+# a recipe object that reaches ANOTHER PROCESS by pickling excludes the original holder (and the other way round)
+
+
+class _RaisingSleep:
+    """time module stand-in for a contender that must not wait: the first sleep between two attempts raises."""
+
+    def sleep(self, d):
+        raise WouldBlock()
+
+    def __getattr__(self, name):
+        import time as real_time
+        return getattr(real_time, name)
+
+
+def _pickled_child(blob, hold, to_parent, from_parent):
+    """Runs in a forked process.  exit code 0: found the resource taken, 1: acquired, 2: error."""
+    import pickle
+    code = 2
+    try:
+        instr.recipes.time = _RaisingSleep()
+        obj = pickle.loads(blob)
+        try:
+            obj.acquire()
+            code = 1
+        except WouldBlock:
+            code = 0
+        if hold:
+            os.write(to_parent, b'1' if code == 1 else b'0')
+            os.read(from_parent, 1)
+        if code == 1:
+            obj.release()
+    except BaseException:      # noqa: BLE001
+        code = 2
+    os._exit(code)
+
+
+def try_acquire_now(obj):
+    clock = instr.Clock(1000.0)
+
+    def on_sleep(dur):
+        raise WouldBlock()
+    clock.on_sleep = on_sleep
+    saved = instr.recipes.time
+    instr.recipes.time = clock
+    try:
+        obj.acquire()
+        return True
+    except WouldBlock:
+        return False
+    finally:
+        instr.recipes.time = saved
+
+
+def run_pickled_process_case(case, d):
+    """-> problems [(sig, text)].  direction 'parent-holds': this process holds through the original object, a forked child
+    unpickles the object and tries; 'child-holds': the child holds through the unpickled object, this process tries through
+    the original.  In both, the second contender must find the resource taken, and must get it once it is released."""
+    import multiprocessing as mp
+    import pickle
+    kind, value, key = case['kind'], case.get('value', 1), case_key(case)
+    mpc = mp.get_context('fork')
+    problems = []
+    if case['variant'] == 'fanout':
+        cache = diskcache.FanoutCache(d, shards=case['shards'], eviction_policy='none')
+    else:
+        cache = diskcache.Cache(d, eviction_policy='none')
+    try:
+        objs = [make_recipe(kind, cache, value, key) for _ in range(value)]      # a semaphore: all but one permit are taken here
+        blob = pickle.dumps(objs[0])
+
+        def child(hold):
+            r1, w1 = os.pipe()
+            r2, w2 = os.pipe()
+            p = mpc.Process(target=_pickled_child, args=(blob, hold, w1, r2))
+            p.start()
+            return p, r1, w2, [r1, w1, r2, w2]
+
+        def finish(p, fds):
+            p.join(30)
+            if p.is_alive():
+                p.kill()
+                p.join(5)
+            for fd in fds:
+                try:
+                    os.close(fd)
+                except OSError:
+                    pass
+            return p.exitcode
+        what = '%s(%s, %r%s)' % ({'lock': 'Lock', 'rlock': 'RLock', 'sem': 'BoundedSemaphore'}[kind],
+                                 'FanoutCache[%d shards]' % case['shards'] if case['variant'] == 'fanout' else 'Cache', key,
+                                 ', value=%d' % value if kind == 'sem' else '')
+        for o in objs[1:]:
+            o.acquire()
+        if case['direction'] == 'parent-holds':
+            objs[0].acquire()
+            p, r, w, fds = child(False)
+            code = finish(p, fds)
+            if code == 1:
+                problems.append(('pickled-process:exclusion', 'a process that received %s by pickle acquired it while the sending process was holding it' % what))
+            elif code != 0:
+                problems.append(('pickled-process:error', 'a process that received %s by pickle failed (exit code %r)' % (what, code)))
+            objs[0].release()
+            p, r, w, fds = child(False)
+            code = finish(p, fds)
+            if code == 0:
+                problems.append(('pickled-process:free-acquire-blocked', 'a process that received %s by pickle found it taken after the holder released it' % what))
+            elif code != 1:
+                problems.append(('pickled-process:error', 'a process that received %s by pickle failed (exit code %r)' % (what, code)))
+        else:
+            p, r, w, fds = child(True)
+            got = os.read(r, 1)
+            if got != b'1':
+                problems.append(('pickled-process:free-acquire-blocked' if got == b'0' else 'pickled-process:error',
+                                 'a process that received %s by pickle could not acquire it although it was free' % what))
+            else:
+                if try_acquire_now(objs[0]):
+                    problems.append(('pickled-process:exclusion', 'the sending process acquired %s while the process that received it by pickle was holding it' % what))
+                    objs[0].release()
+            os.write(w, b'x')
+            code = finish(p, fds)
+            if got == b'1' and code != 1:
+                problems.append(('pickled-process:error', 'the process holding %s failed while releasing (exit code %r)' % (what, code)))
+            if not problems:
+                if not try_acquire_now(objs[0]):
+                    problems.append(('pickled-process:free-acquire-blocked', 'the sending process found %s taken after the receiving process released it' % what))
+                else:
+                    objs[0].release()
+    finally:
+        cache.close()
+    return problems
+
+
+def pickled_process_holders(ctx, res, ncases):
+    checked = 0
+    seen = {}
+    for n in range(ncases):
+        kind = ['lock', 'rlock', 'sem'][n % 3]
+        shards = HOLD_SHARDS[(n // 3) % len(HOLD_SHARDS)]
+        case = {'check': 'pickled-process', 'kind': kind, 'value': ctx.rng.choice([1, 2]) if kind == 'sem' else 1,
+                'variant': 'cache' if shards == 1 and n % 2 else 'fanout', 'shards': shards, 'key': ctx.rng.choice(HOLD_KEYS),
+                'direction': ['parent-holds', 'child-holds'][(n // 3 + n) % 2]}
+        d = ctx.scratch('c15pp')
+        try:
+            problems = run_pickled_process_case(case, d)
+        finally:
+            shutil.rmtree(d, ignore_errors=True)
+        checked += 1
+        res.count(case, nontrivial=True)
+        for sig, text in problems:
+            seen[sig] = seen.get(sig, 0) + 1
+            if seen[sig] <= 4:
+                res.violations.append(fw.Violation(sig, text + ' (%s)' % case['direction'], case))
+    res.extra['pickled_process_checks'] = checked
+
+
 def base_hist():
     return {'contenders': {}, 'variant': {}, 'kind': {}, 'atomic_steps': {}, 'contention': 0, 'max_holders': 0}
 
@@ -871,6 +1278,12 @@ def run(ctx):
                 'an exact reference (Lock free/held, RLock owner+depth, semaphore permits), with releases that must be refused (RLock by a '
                 'non-owner or beyond its depth, BoundedSemaphore with every permit free) or be a no-op (Lock nobody holds) interleaved with '
                 'ordinary acquire/release, the stored entry read before and after each of them, and every holder trying to get in at the end.  '
+                'Hold sequences (same reference): Lock/RLock/BoundedSemaphore(1-3) with default arguments used directly and through barrier() with its '
+                'default arguments (key given or derived from the function), holders staying inside (parked in the wrapped function) while the virtual '
+                'clock advances by 0.5 s ... 400 days before the next contender arrives, on Cache and FanoutCache with 1,2,3,4,5,8,13 shards, lock keys '
+                'of several types, each contender using the original object, an unpickled copy of the recipe object, or a recipe built on an unpickled '
+                'cache handle.  Processes: holders forked after the object was built; a recipe object pickled here and unpickled in a forked process, '
+                'holder and contender on either side.  '
                 'non-trivial = at least 4 atomic steps / at least one refused release; distinct = distinct (recipe, value, variant, programs, schedule).')
     hist = base_hist()
     rng = ctx.rng
@@ -891,7 +1304,9 @@ def run(ctx):
     res.extra['runs_with_contention'] = hist['contention']
     res.extra['max_simultaneous_holders_seen'] = hist['max_holders']
     refusal_sequences(ctx, res, 90 if ctx.quick else 900)
+    hold_sequences(ctx, res, 180 if ctx.quick else 1800)
     forked_holders(ctx, res)
+    pickled_process_holders(ctx, res, 42 if ctx.quick else 210)
     if not ctx.quick:
         process_soak(ctx, res)
     return res
@@ -906,7 +1321,9 @@ def search(ctx, broken):
     cases += [gen_case(ctx.rng) for _ in range(300)]
     run_cases(ctx, res, cases, hist, correspond=False)
     refusal_sequences(ctx, res, 300)
+    hold_sequences(ctx, res, 400)
     forked_holders(ctx, res)
+    pickled_process_holders(ctx, res, 84)
     return res
 
 
@@ -917,6 +1334,22 @@ def replay(payload):
         try:
             problems, info = run_refusal_case(case, d)
             print('refusal sequence:', problems, info)
+            return not problems
+        finally:
+            shutil.rmtree(d, ignore_errors=True)
+    if case.get('check') == 'hold':
+        d = tempfile.mkdtemp(prefix='c15r-')
+        try:
+            problems, info = run_hold_case(case, d)
+            print('hold sequence:', problems, info)
+            return not problems
+        finally:
+            shutil.rmtree(d, ignore_errors=True)
+    if case.get('check') == 'pickled-process':
+        d = tempfile.mkdtemp(prefix='c15r-')
+        try:
+            problems = run_pickled_process_case(case, d)
+            print('pickled recipe object in another process:', problems)
             return not problems
         finally:
             shutil.rmtree(d, ignore_errors=True)
